@@ -495,6 +495,8 @@ class Build:
         self.error = None
         self.log_records = []
         self.commits = 0
+        self.thread_delay = None
+        self.thread_delays = 0
 
     def event(self, type_, **kw):
         self.t += 1
@@ -590,6 +592,27 @@ def install_patches():
                     await cb(build, build.handler)
 
     builder_mod.Builder.job_loop = job_loop
+
+    # Injected delay at an existing suspension point of the director: the hand-off of hash
+    # computations to a thread (before a command, after it, and for file hash jobs).
+    # `cfg["thread_delay"] = {"p": probability, "max": seconds, "seed": n}` makes that thread
+    # slow to start, as it is for a large file or a busy machine, which widens the windows
+    # between a dispatch and `reset_for_rerun`, and between the end of a command and the
+    # transaction that records it.
+    import stepup.core.run as run_mod
+
+    orig_run_in_thread = run_mod.ThreadWorker.run_in_thread
+
+    async def run_in_thread(self):
+        build = _CURRENT["build"]
+        if build is not None and build.thread_delay is not None:
+            rng, p, dmax = build.thread_delay
+            if rng.random() < p:
+                build.thread_delays += 1
+                await asyncio.sleep(rng.random() * dmax)
+        return await orig_run_in_thread(self)
+
+    run_mod.ThreadWorker.run_in_thread = run_in_thread
     _PATCHED["done"] = True
 
 
@@ -624,6 +647,9 @@ def run_build(cfg=None, ctl=None, monitors=(), driver=None, env=None, timeout=60
     cfg = cfg or {}
     build = Build(ctl, monitors)
     build.drop_cutoff = cfg.get("drop_cutoff", 3)
+    td = cfg.get("thread_delay")
+    if td:
+        build.thread_delay = (random.Random(td.get("seed", 0)), td.get("p", 0.5), td.get("max", 0.02))
     _CURRENT["build"] = build
     os.makedirs(".stepup", exist_ok=True)
     sockdir = tempfile.mkdtemp(prefix="vs", dir=os.environ.get("VERIF_SCRATCH", "/tmp"))
